@@ -258,7 +258,10 @@ public:
             }
         out().raw("\"e\":\"Deadlock\",\"t\":-1,\"k\":\"-\",\"blocked\":" + b + "]");
     }
-    void on_abort(int) override { out().flush(); }
+    void on_abort(int) override {
+        for (auto &r : vs::race_reports()) out().raw("\"e\":\"Race\"," + r);
+        out().flush();
+    }
     void too_long() override { out().line("\"e\":\"TooLong\""); }
 };
 
@@ -349,6 +352,7 @@ void run_exec(const Execution &ex) {
     }
     out().line("\"e\":\"Begin\",\"t\":-1,\"k\":\"-\",\"n\":%d,\"hold\":%d,\"barrier\":%d", g_n, g_main_hold ? 1 : 0, g_barrier_target);
     vs::run(ctl, scenario);
+    for (auto &r : vs::race_reports()) out().raw("\"e\":\"Race\"," + r);
     out().line("\"e\":\"Done\",\"t\":-1,\"k\":\"-\"");
 }
 
